@@ -11,6 +11,7 @@ import (
 	"os/exec"
 	"runtime"
 	"strings"
+	"sync"
 	"sync/atomic"
 	"time"
 
@@ -49,8 +50,8 @@ type Case struct {
 	Outcome string `json:"outcome,omitempty"` // success | error | silent | timeout | cancel
 	Phase   string `json:"phase,omitempty"`   // before | during | entry (cancel: the context is already done when Execute is called)
 	// phase entry: "" the context is already cancelled | deadline: its deadline has already passed
-	Ctx string `json:"ctx,omitempty"`
-	NProc   int    `json:"nproc,omitempty"`
+	Ctx   string `json:"ctx,omitempty"`
+	NProc int    `json:"nproc,omitempty"`
 	// streams
 	Ops []StreamOp `json:"ops,omitempty"`
 	// race: Rounds rounds of free-running conc cases in a child process built with -race
@@ -81,6 +82,20 @@ type Case struct {
 	// Err: subset | comm | tss | coordinator; When: just | late
 	Err  string `json:"err,omitempty"`
 	When string `json:"when,omitempty"`
+	// batch: ONE session with NProc processes (batch.go); Modes[i]: the Run of process i returns at once
+	// (now) or blocks until it is let go / its context ends (gate); ErrAt: the process that fails
+	// (outcomes error, retry); Dup: a second batch for the same ids is requested while the session is live;
+	// Procs = 1: the session runs under GOMAXPROCS(1)
+	Modes []string `json:"modes,omitempty"`
+	ErrAt int      `json:"err_at,omitempty"`
+	Dup   bool     `json:"dup,omitempty"`
+	// hist: K sessions with distinct ids run to their end one after the other on ONE coordinator (outcome
+	// pattern Mix), then the Probes (an index below K: the id of that ended session; K + j: the j-th new id)
+	K      int   `json:"k,omitempty"`
+	Mix    int   `json:"mix,omitempty"`
+	Probes []int `json:"probes,omitempty"`
+	// hist: in the middle of the history one session stays live while Dups requests for its id are made
+	Dups int `json:"dups,omitempty"`
 }
 
 type Round struct {
@@ -128,6 +143,9 @@ type Obs struct {
 	// srace, long
 	SR   *SRaceObs `json:"sr,omitempty"`
 	Long *LongObs  `json:"long,omitempty"`
+	// batch, hist
+	Batch *BatchObs `json:"batch,omitempty"`
+	Hist  *HistObs  `json:"hist,omitempty"`
 }
 
 // ---- environment --------------------------------------------------------------------------------
@@ -713,6 +731,8 @@ func raceChild(rounds int) {
 		runConc(Case{Kind: "conc", Sids: sids})
 	}
 	runStorm(Case{Kind: "storm", N: 8, Rounds: rounds})
+	// sessions with several processes: the loops that hand each process of a batch to a pool / stop it
+	raceBatch(max(40, rounds/3))
 }
 
 func runRace(c Case) Obs {
@@ -737,6 +757,48 @@ func runRace(c Case) Obs {
 	return o
 }
 
+// ---- the race children as futures -------------------------------------------------------------------
+
+var (
+	raceFutMu sync.Mutex
+	raceFuts  = map[string]chan Obs{}
+)
+
+func raceKey(c Case) string { return fmt.Sprintf("%s/%d/%d", c.Kind, c.Workers, c.Rounds) }
+
+func prefetchRaces(cs []Case) {
+	raceFutMu.Lock()
+	defer raceFutMu.Unlock()
+	var chs []chan Obs
+	for _, c := range cs {
+		ch := make(chan Obs, 1)
+		raceFuts[raceKey(c)] = ch
+		chs = append(chs, ch)
+	}
+	go func() {
+		for i, c := range cs {
+			if c.Kind == "race" {
+				chs[i] <- runRace(c)
+			} else {
+				chs[i] <- runRaceComm(c)
+			}
+		}
+	}()
+}
+
+// raceFuture: the result of the prefetched child if this very case was planned, a fresh run otherwise
+// (replays).
+func raceFuture(c Case, direct func(Case) Obs) Obs {
+	raceFutMu.Lock()
+	ch, ok := raceFuts[raceKey(c)]
+	delete(raceFuts, raceKey(c))
+	raceFutMu.Unlock()
+	if ok {
+		return <-ch
+	}
+	return direct(c)
+}
+
 func tail(s string, n int) string {
 	if len(s) > n {
 		return s[len(s)-n:]
@@ -755,7 +817,7 @@ func run(c Case) Obs {
 	case "streams":
 		return runStreams(c)
 	case "race":
-		return runRace(c)
+		return raceFuture(c, runRace)
 	case "storm":
 		return runStorm(c)
 	case "comm":
@@ -765,11 +827,15 @@ func run(c Case) Obs {
 	case "commw":
 		return runCommW(c)
 	case "racecomm":
-		return runRaceComm(c)
+		return raceFuture(c, runRaceComm)
 	case "srace":
 		return runSRace(c)
 	case "long":
 		return runLongFuture(c)
+	case "batch":
+		return runBatch(c)
+	case "hist":
+		return runHist(c)
 	}
 	panic("unknown kind " + c.Kind)
 }
@@ -978,13 +1044,21 @@ func gen(r *vgen.Rng, tier string) []Case {
 	for n := 2; n <= 7; n++ {
 		out = append(out, Case{Kind: "storm", N: n, Rounds: stormRounds / 8, Procs: 0})
 	}
+	// sessions with a batch of processes; long histories on one coordinator
+	out = append(out, genBatch(r, tier)...)
+	out = append(out, genHist(r, tier)...)
+	var races []Case
 	if tier == "thorough" {
-		out = append(out, Case{Kind: "race", Rounds: 600})
-		out = append(out, Case{Kind: "racecomm", Workers: 16, Rounds: 600})
+		races = append(races, Case{Kind: "race", Rounds: 600})
+		races = append(races, Case{Kind: "racecomm", Workers: 16, Rounds: 600})
 	} else {
-		out = append(out, Case{Kind: "race", Rounds: 120})
-		out = append(out, Case{Kind: "racecomm", Workers: 12, Rounds: 120})
+		races = append(races, Case{Kind: "race", Rounds: 120})
+		races = append(races, Case{Kind: "racecomm", Workers: 12, Rounds: 120})
 	}
+	// the race-enabled child is built and run in the background from the start of the run (its results
+	// are collected when the cases are reached)
+	prefetchRaces(races)
+	out = append(out, races...)
 	return out
 }
 
@@ -1162,6 +1236,10 @@ func coq(c Case, o Obs) string {
 		ek := map[string]int{"subset": 0, "comm": 1, "tss": 2, "coordinator": 3}[c.Err]
 		return "Long " + vgen.Nat(ek) + " " + vgen.Bool(c.When == "late") + " " + vgen.Bool(lo.Reached) + " " + vgen.Bool(lo.FirstLive) + " " +
 			vgen.Bool(lo.DupAdmitted) + " " + vgen.Nat(lo.MaxLive) + " " + vgen.Bool(lo.PendAfter) + " " + vgen.Bool(lo.Reuse)
+	case "batch":
+		return coqBatch(c, o)
+	case "hist":
+		return coqHist(c, o)
 	case "storm":
 		return "Storm " + vgen.Nat(c.N) + " " + vgen.ListOf(o.Rounds, func(r Round) string {
 			return vgen.Pair(vgen.ListOf(r.Refused, vgen.Bool), vgen.Nat(r.MaxLive))
@@ -1217,6 +1295,10 @@ func kind(c Case) string {
 		return "srace/" + c.Level
 	case "long":
 		return "long/" + c.Err + "/" + c.When
+	case "batch":
+		return kindBatch(c)
+	case "hist":
+		return "hist"
 	case "commw":
 		k := "commw"
 		of, wf := false, false
@@ -1270,6 +1352,6 @@ func main() {
 			}
 			return true
 		},
-		Rule: "admission: 2..8 overlapping Execute calls x {equal, distinct, mixed session ids} x {natural schedule, all requests held until none makes progress, then let through one critical section at a time}; storm: hundreds of rounds of 2..8 free-running requests for one session id released by a barrier, with 16/8/4/2 OS threads; sessions: role x outcome x phase x 1..3 processes, each followed by a restart of the same id, incl. the context that is already cancelled / past its deadline when Execute is called (phase entry); comm: random sequences of single-peer Broadcasts and CloseSessions on the real Libp2pCommunication over a fake host (two thirds with streams whose Close fails); tear: role x outcome x 1..3 processes x every point at which the teardown can be parked (inside CloseSession, inside Stop of each process), a second request for the same id issued there, a third after everything ended; commw: random sequences of Broadcasts to 1..3 peers and CloseSessions on the real Libp2pCommunication with scripted NewStream failures, failing first / later writes and failing Close (a third fault free); racecomm: 12 goroutines x 120 session lifetimes on one real Libp2pCommunication value plus sessions of the real Execute on it, under the race detector; streams: random AddStream/Stream/ReleaseStreams sequences on the real StreamManager, two thirds of them with streams whose Close fails, releases followed by fresh streams for the same session id; distinct = distinct input JSON; non-trivial = admission cases with at least two requests for one id, every session case, stream cases with more than 6 operations",
+		Rule: "admission: 2..8 overlapping Execute calls x {equal, distinct, mixed session ids} x {natural schedule, all requests held until none makes progress, then let through one critical section at a time}; storm: hundreds of rounds of 2..8 free-running requests for one session id released by a barrier, with 16/8/4/2 OS threads; sessions: role x outcome x phase x 1..3 processes, each followed by a restart of the same id, incl. the context that is already cancelled / past its deadline when Execute is called (phase entry); comm: random sequences of single-peer Broadcasts and CloseSessions on the real Libp2pCommunication over a fake host (two thirds with streams whose Close fails); tear: role x outcome x 1..3 processes x every point at which the teardown can be parked (inside CloseSession, inside Stop of each process), a second request for the same id issued there, a third after everything ended; commw: random sequences of Broadcasts to 1..3 peers and CloseSessions on the real Libp2pCommunication with scripted NewStream failures, failing first / later writes and failing Close (a third fault free); racecomm: 12 goroutines x 120 session lifetimes on one real Libp2pCommunication value plus sessions of the real Execute on it, under the race detector; streams: random AddStream/Stream/ReleaseStreams sequences on the real StreamManager, two thirds of them with streams whose Close fails, releases followed by fresh streams for the same session id; batch: ONE session with 2..6 scripted process objects (per object: Run calls, simultaneous Runs, Stop calls; Run returning at once / staying inside, per process) x role x {success, process error at a random position, cancelled before / during / before entry, global timeout, silent coordinator, retried batch, refused duplicate batch} x {GOMAXPROCS(1), scheduler untouched}, a duplicate batch requested while the session is live, the same batches in the -race child; hist: 127..1025 (and random 300..600) quick sequential sessions with distinct ids and mixed outcomes on ONE coordinator, every other history with a burst of as many refused duplicates of a live session in its middle, then probes with new and ended ids; distinct = distinct input JSON; non-trivial = admission cases with at least two requests for one id, every session case, stream cases with more than 6 operations",
 	})
 }
